@@ -121,6 +121,16 @@ pub fn agrees_any(alts: &Value, got: f64, is_int: bool, sentinel: f64) -> bool {
     alts.as_array().expect("alternatives").iter().any(|t| agrees(t, got, is_int, sentinel))
 }
 
+/// Float properties replayed with every value multiplied by `scale` (a power of two: exact in f32, and
+/// lerp is linear): the implementation must produce `scale` times the term's value.
+pub fn agrees_any_scaled(alts: &Value, got: f64, sentinel: f64, scale: f64) -> bool {
+    alts.as_array().expect("alternatives").iter().any(|t| {
+        let tv = eval_term(t);
+        if tv.untouched { return got == sentinel; }
+        got.is_finite() && (got - tv.v * scale).abs() <= 4e-6 * tv.mag.max(1.0) * scale
+    })
+}
+
 pub fn repeat_of(rep: i64) -> Repeat {
     match rep { -1 => Repeat::None, -2 => Repeat::Infinite, -3 => Repeat::Times(u32::MAX), n if n >= 0 => Repeat::Times(n as u32), _ => panic!("rep") }
 }
